@@ -520,7 +520,7 @@ def _is_m110(data):
 
 
 def run_direct(stmts, acks, status=None, late_hs=False, settle=0.02, do_disconnect=True, readings=False,
-               deadline=2.5, mode="serial", lose_at=0, slow=None):
+               deadline=2.5, mode="serial", lose_at=0, slow=None, lose_idle_after=0):
     """Drive the real SerialWriter/PrintrunWriter. stmts: list of bytes handed to write(); acks: the reply line
     (bytes) the device gives to each statement; status: {k: [lines pushed before the ack of statement k]};
     late_hs: the ok of the second start-up M110 is released only after the first write() began."""
@@ -607,7 +607,9 @@ def run_direct(stmts, acks, status=None, late_hs=False, settle=0.02, do_disconne
                 time.sleep(settle)             # a window in which a too-eager write() can return; never a verdict
                 if slow and slow[0] == k:
                     time.sleep(slow[2])        # an acknowledgement slower than the writer's own timeout
-                if lose_at == k:
+                if lose_idle_after and k > lose_idle_after:
+                    pass                        # the link is down: the device says nothing
+                elif lose_at == k:
                     with hub.lock:             # the link drops before this statement is acknowledged
                         hub.closed = True
                         hub.events.append({"k": "lost", "s": k})
@@ -621,6 +623,13 @@ def run_direct(stmts, acks, status=None, late_hs=False, settle=0.02, do_disconne
                 if lose_at == k:
                     do_disconnect = False
                     break
+                if lose_idle_after == k:
+                    with hub.lock:             # the link drops while nothing is in flight; the next write() must raise
+                        hub.closed = True
+                        hub.events.append({"k": "lost", "s": k})
+                        hub.cv.notify_all()
+                    time.sleep(0.05)
+                    do_disconnect = False
             if do_disconnect:
                 hub.log({"k": "disc_call"})
                 dt = threading.Thread(target=lambda: results.__setitem__("disc", _guard(lambda: w.disconnect(True))), daemon=True)
